@@ -33,6 +33,28 @@ Theorem C12_tokens_in_order : forall catof binres unres toks d t,
   retrieve catof binres unres toks d = Some t -> dlen d = length toks -> tokens t = toks.
 Proof. exact retrieve_tokens. Qed.
 
+(* every derivation the search can return (licensed: each rule index names an existing result) can be retrieved - the cache
+   lookup never leaves the cached vector - and each binary node gets exactly the head direction the search used for it,
+   each node the category of its rule result; a complete derivation yields a tree over exactly the sentence's tokens *)
+Theorem C12_search_results_are_retrievable : forall (catof : nat -> cat) (binres : nat -> nat -> list cres) (unres : nat -> list cres) (toks : list token) n adm bin un,
+  (forall x y k c hl, nth_error (bin x y) k = Some (c, hl) ->
+     exists res, nth_error (binres x y) k = Some res /\ head_is_left res = hl /\ rcat res = catof c) ->
+  (forall x k c, nth_error (un x) k = Some c -> exists res, nth_error (unres x) k = Some res /\ rcat res = catof c) ->
+  length toks = n ->
+  forall d, licensed n adm bin un d ->
+  exists t, Built catof binres unres toks d (dstart d) t /\ tcat t = catof (dcat d) /\
+            match d, t with DBin _ _ hl _ _, Bin _ _ _ h _ _ => h = hl | _, _ => True end.
+Proof. exact licensed_retrievable. Qed.
+
+Theorem C12_complete_derivation_gives_tree_over_the_sentence : forall (catof : nat -> cat) (binres : nat -> nat -> list cres) (unres : nat -> list cres) (toks : list token) n adm bin un,
+  (forall x y k c hl, nth_error (bin x y) k = Some (c, hl) ->
+     exists res, nth_error (binres x y) k = Some res /\ head_is_left res = hl /\ rcat res = catof c) ->
+  (forall x k c, nth_error (un x) k = Some c -> exists res, nth_error (unres x) k = Some res /\ rcat res = catof c) ->
+  length toks = n ->
+  forall d, licensed n adm bin un d -> dstart d = 0%nat -> dlen d = n ->
+  exists t, retrieve catof binres unres toks d = Some t /\ tokens t = toks.
+Proof. exact complete_retrieve. Qed.
+
 (* reader side: guess_combinator_by_triplet (translated from depccg/grammar/__init__.py on every run) returns the first
    rule whose category is the node's category - its label and head direction - and 'unk' only when no rule derives it *)
 Theorem C12_guess_returns_first_deriving_rule : forall rules target r,
